@@ -74,6 +74,7 @@ class HookedArmV6(ArmV6):
         self.cp_words = [0x11111111, 0x22222222]
         self.hints = []
         self.barriers = []          # (domain, types) of every DSB the core asked the memory system for: part of the compared state
+        self.preloads = []          # (kind, address) of every preload hint handed to the memory system: likewise
 
     def mark_exclusive_local(self, pa, pid, size):
         self.mon = (pa.physicaladdress, size)
@@ -98,9 +99,11 @@ class HookedArmV6(ArmV6):
 
     def hint_preload_data(self, a):
         self.hints.append(('pld', a))
+        self.preloads.append(('pld', a))
 
     def hint_preload_data_for_write(self, a):
         self.hints.append(('pldw', a))
+        self.preloads.append(('pldw', a))
 
     def hint_yield(self):
         self.hints.append(('yield',))
@@ -236,6 +239,8 @@ def snapshot(cpu, with_mem=True):
         out['cplog'] = tuple(cpu.cplog)
     if hasattr(cpu, 'barriers'):
         out['barriers'] = tuple(cpu.barriers)
+    if hasattr(cpu, 'preloads'):
+        out['preloads'] = tuple(cpu.preloads)
     if hasattr(cpu, 'mon'):
         out['excl'] = tuple(cpu.mon) if cpu.mon else None        # local exclusive monitor of the hooked flavour
     out['wfe'] = cpu.is_wait_for_event
@@ -282,6 +287,9 @@ def apply_state(cpu, state):
         elif k == 'barriers':
             if hasattr(cpu, 'barriers'):
                 cpu.barriers = [tuple(x) for x in v]
+        elif k == 'preloads':
+            if hasattr(cpu, 'preloads'):
+                cpu.preloads = [tuple(x) for x in v]
         elif k == 'excl':
             if hasattr(cpu, 'mon'):
                 cpu.mon = tuple(v) if v else None
